@@ -110,6 +110,14 @@ RULE = ("cells = {steady: form x solver x grid relation x observation map x mode
         "reference of THAT object's options and every repeated evaluation the first one (relative 1e-12, no absolute floor); one verdict per "
         "cell that does not depend on what the worker process built before: earlier-object-altered-by-later-construction (repeated "
         "evaluations disagree), else output-under-history (reference mismatch), raises-under-history.  "
+        "Observation-grid layout facet (how the observation points are LISTED relative to the solution nodes; the grid relations above list "
+        "them in ascending order, once each): {sub-grid right-to-left, sub-grid in an order neither ascending nor descending, sub-grid with "
+        "one node listed twice, a single node, the off-node points in non-monotone order, on-node and off-node points alternating} x {steady: "
+        "3 forms x solvers {default, numpy} x maps {none, square}; time dependent: 3 forms x both methods x time_obs {final, all, on-nodes, "
+        "off-nodes} x maps {none, square}}; oracle unchanged and point by point: entry k of observe() and of PDEModel.forward is the "
+        "reference solution of the dense system at the k-th LISTED point (node value to 1e-10 where every listed point is a node, else a "
+        "standard interpolant evaluated at exactly the listed points in the listed order), same length as the list; signature facet "
+        "grids=<layout>; a raise is accepted as refusal (the bivariate spline of the time dependent class refuses non-monotone points).  "
         "A cell is non-trivial when at least one observation was returned (not refused)")
 BOUND = {
     "quick": "steady: 3 forms (N=6 nodes) x 6 solvers x 6 grid relations x 3 maps (+3 domain geometries x 3 gradient hooks on the "
@@ -130,7 +138,8 @@ BOUND = {
              "cells).  Operator symmetry cells: 2 non-symmetric terms x {steady (N=6): 3 forms x 5 solvers x {equal, offnode} + 3 forms x 3 gradient "
              "hooks (78 cells); time dependent (N=5): 3 forms x {uniform, non-uniform} x K in {2,3,4} x 2 methods x {final, all, off-nodes} x "
              "{equal, offnode} + 3 forms x (4 backward-Euler solvers + forward Euler on a csr operator) x {final, all} on the non-uniform K=3 "
-             "grid (492 cells)}.  Process history cells: 144 shipped (2 problems x 2 dims x 3 fields x 2 obs maps x 3 sibling options x 2 orders) + 48 "
+             "grid (492 cells)}.  Observation-grid layout cells: 6 layouts x {steady (N=6): 3 forms x 2 solvers x 2 maps (72 cells); time dependent (N=5, "
+             "non-uniform K=3): 3 forms x 2 methods x 4 time_obs x 2 maps (288 cells)}.  Process history cells: 144 shipped (2 problems x 2 dims x 3 fields x 2 obs maps x 3 sibling options x 2 orders) + 48 "
              "steady (N=6) + 144 time dependent (N=5, non-uniform K=3), 3 objects and 6 evaluations x 2 parameter points x 2 routes per cell",
     "thorough": "as quick with K in 2..6, N in {5,7} for the time-dependent forms, N in {6,9} steady, and all 3 value catalogues in one run; "
                 "representation cells also on the uniform K=3 grid, plus (first catalogue) the complete product 5 x 6 x 6 x 8 of "
@@ -138,7 +147,8 @@ BOUND = {
                 "location / scale cells with N in {6,9} x all 3 maps (steady), N in {5,7} x 3 forms x {non-uniform K=3, uniform K=4} x all 6 "
                 "time_obs (time dependent); time origin in {2^10, 2^20} x 3 forms; operator symmetry cells with N in {6,9} x maps {none, square} "
                 "(steady), N in {5,7} x K in 2..6 x all 6 time_obs (time dependent); container cells with N in {5,7} and both stepping methods "
-                "for both time dependent PDEs (6 PDEs); time-grid position cells with K in 2..6 and N in {5,7}; process history cells as quick "
+                "for both time dependent PDEs (6 PDEs); time-grid position cells with K in 2..6 and N in {5,7}; observation-grid layout cells with N in {6,9} (steady), N in {5,7} x "
+                "{non-uniform K=3, uniform K=4} (time dependent); process history cells as quick "
                 "for each of the 3 value catalogues",
 }
 ASSUMPTIONS = [
@@ -190,6 +200,11 @@ ASSUMPTIONS = [
     "endpoint / (dim + 1), second-difference operator / dx^2, forward Euler on linspace(0, max_time, int(max_time / (5/11 dx^2)) + 1), "
     "observation at the final time (on the unchanged tree this reference coincides with the model's own PDE_form driven through the "
     "pipeline, the oracle of the other shipped cells); the parameter -> function map is the model's own domain geometry",
+    "observation-grid layout: grid_obs is an ordered list of points and the observation is indexed like it (entry k belongs to the k-th "
+    "listed point; a point listed twice is observed twice); the listed sub-grids are nodes {N-1,3,1}, {3,N-1,0,1}, {1,3,3,N-1}, {2}, the "
+    "off-node points are those of 'offnode' in the order (last, first, middle), the mixture is node 1, mid-point of cell 1, node 3, a point "
+    "in the last cell; in a mixture the on-node entries are judged with the interpolation tolerance (every accepted interpolant passes "
+    "through the nodes); a decreasing SOLUTION grid, unordered observation TIMES and 2D grids are not covered",
     "input integrity is demanded of the library only (harness-supplied solvers and maps do not write to their arguments); the returned "
     "observation may alias the solution",
 ]
@@ -198,6 +213,12 @@ STEADY_FORMS = ["poisson", "rhs-param", "both"]
 STEADY_SOLVERS = ["default", "numpy", "scipy-kwargs", "spsolve", "cg-info", "gmres-tuple"]
 GRID_RELS = ["none", "equal", "equal-explicit", "subset", "offnode", "shifted"]
 MAPS = ["none", "square", "index"]
+# observation-grid layout facet: HOW the observation points are listed relative to the solution nodes (the relations above list a
+# sub-grid / off-node points in ascending order only): nodes right-to-left, nodes in an order that is neither ascending nor descending,
+# a node listed twice, one node, off-node points in non-monotone order, on-node and off-node points mixed - the observation must be
+# the value at the k-th LISTED point in position k
+LAYOUT_RELS = ["subset-desc", "subset-perm", "subset-repeat", "single", "offnode-perm", "mixed"]
+LAYOUT_TIME_OBS = ["final", "all", "on-nodes", "off-nodes"]
 TD_FORMS = ["heat-ic", "all-dep", "ic-time"]
 TIME_OBS = ["final", "FINAL", "all", "final-list", "on-nodes", "off-nodes", "one-off"]
 TD_SOLVERS = ["numpy", "scipy-kwargs", "cg-info", "gmres-tuple", "sparse-op"]
@@ -257,6 +278,22 @@ def cells(tier, seed):
                                             "time_obs": tobs, "grids": "equal", "map": "none", "solver": solver, "cat": k})
                         out.append({"kind": "timedep", "form": form, "N": N, "tgrid": tg, "K": K, "method": "forward_euler",
                                     "time_obs": "final", "grids": "equal", "map": "none", "solver": "sparse-op", "cat": k})
+        # observation-grid layout facet: order / multiplicity / mixture of the listed observation points, both PDE classes
+        for rel in LAYOUT_RELS:
+            for form in STEADY_FORMS:
+                for solver in ("default", "numpy"):
+                    for mp in ("none", "square"):
+                        for N in ((6,) if q else (6, 9)):
+                            out.append({"kind": "steady", "form": form, "N": N, "solver": solver, "grids": rel, "map": mp,
+                                        "geom": "int", "hook": "none", "cat": k})
+            for form in TD_FORMS:
+                for N in ((5,) if q else (5, 7)):
+                    for tg, K in ((("nonuniform", 3),) if q else (("nonuniform", 3), ("uniform", 4))):
+                        for method in ("forward_euler", "backward_euler"):
+                            for tobs in LAYOUT_TIME_OBS:
+                                for mp in ("none", "square"):
+                                    out.append({"kind": "timedep", "form": form, "N": N, "tgrid": tg, "K": K, "method": method,
+                                                "time_obs": tobs, "grids": rel, "map": mp, "solver": "default", "cat": k})
         # representation facet: dtype / container of the parameter and of every piece PDE_form returns (integer valued data)
         for reps in _steady_rep_combos():
             solvers = ("spsolve",) if reps[2].startswith("csr") else ("default", "numpy")
@@ -559,6 +596,16 @@ def _grids(rel, g):
     if rel == "offnode":
         pts = np.array([0.5 * (g[0] + g[1]), 0.25 * g[2] + 0.75 * g[3], g[-2] + 0.125 * (g[-1] - g[-2])])
         return g.copy(), pts, pts
+    if rel in ("subset-desc", "subset-perm", "subset-repeat", "single"):       # solution nodes, listed in another order / twice / alone
+        n = len(g)
+        idx = {"subset-desc": [n - 1, 3, 1], "subset-perm": [3, n - 1, 0, 1], "subset-repeat": [1, 3, 3, n - 1], "single": [2]}[rel]
+        return g.copy(), g[idx].copy(), g[idx].copy()
+    if rel == "offnode-perm":       # the points of 'offnode' in non-monotone order
+        pts = np.array([g[-2] + 0.125 * (g[-1] - g[-2]), 0.5 * (g[0] + g[1]), 0.25 * g[2] + 0.75 * g[3]])
+        return g.copy(), pts, pts
+    if rel == "mixed":              # on-node and off-node points alternating (ascending)
+        pts = np.array([g[1], 0.5 * (g[1] + g[2]), g[3], g[-2] + 0.125 * (g[-1] - g[-2])])
+        return g.copy(), pts, pts
     if rel in ("shifted", "shifted-fine"):     # as many observation points as solution nodes, none (or only the centre) coinciding:
         frac = 0.25 if rel == "shifted" else 2.0 ** -10        # every node moved towards the centre by a fraction of a cell
         pts = g + frac * (g[1] - g[0]) * np.sign(0.5 * (len(g) - 1) - np.arange(len(g)))
@@ -613,9 +660,13 @@ def _td_obs_refs(U, g, times, nodes, tobs, mp):
         if g is not None:
             xo = g if nodes is None else nodes
             gl, xl, tl, sl = P.local(g, g), P.local(xo, g), P.local(times, times), P.local(tobs, times)   # relative to the first node / level
+            monotone = bool(np.all(np.diff(xl) >= 0)) and bool(np.all(np.diff(sl) >= 0))
+            XX, SS = np.meshgrid(xl, sl, indexing="ij")
             for kx, ky in [(3, 3)] + [p for p in itertools.product((1, 2, 3), repeat=2) if p != (3, 3)]:
                 try:
-                    cands.append(np.asarray(RectBivariateSpline(gl, tl, U, kx=kx, ky=ky)(xl, sl), float))
+                    spl = RectBivariateSpline(gl, tl, U, kx=kx, ky=ky)
+                    # points listed in non-monotone order: evaluated point by point, value of listed point i in row i
+                    cands.append(np.asarray(spl(xl, sl) if monotone else spl(XX, SS, grid=False), float))
                 except Exception:
                     pass
             cands.append(P.bilinear(gl, tl, U, xl, sl))
